@@ -205,7 +205,7 @@ def _eligible(tr):
         if t == "claim" and st.frames(c, "claimed"):
             res.append((st, dict(m)))
         elif t == "release" and st.frames(c, "released"):
-            name = m.get("nameplate") or st.flags_pre.get(c, {}).get("np")
+            name = m.get("nameplate") if m.get("nameplate") is not None else st.flags_pre.get(c, {}).get("np")
             if name is not None:
                 res.append((st, dict(m, nameplate=name)))
         elif t == "open" and not st.frames(c, "error") and "mailbox" in m:
